@@ -130,3 +130,13 @@ C("mako.lookup:TemplateLookup.put_template",
   modifies=["self._collection"],
   ensures=[("stored", "self._collection == dict_set(old(self._collection), uri, template)")],
   props=["C14"], native_skip=True)
+
+# ---- has_template: "a URI with no file -> False", whatever made the lookup fail (C14) -------------------------------
+C("mako.lookup:TemplateCollection.has_template",
+  params={"self": "TemplateLookup", "uri": "Str"}, returns="Bool",
+  requires=[("lock-free", "G.lock == 0")],
+  modifies=["self._collection", "G.lock", "G.built", "G.fs_probes"],
+  ensures=[("lock-released", "G.lock == 0")],
+  raises={"TemplateLookupException": {"when": "False"}, "*": {}},
+  props=["C14"], native_skip=True,
+  note="no TemplateLookupException (a template that was never there, or one whose file has vanished since it was cached) escapes: the answer is False")
